@@ -27,6 +27,9 @@ func (c *ctx) didFacts() {
 		{metadataGo, "CreateDocumentMetadata"}, {metadataGo, "getPublishedOperations"}, {metadataGo, "getUnpublishedOperations"}, {metadataGo, "sortOperations"}} {
 		c.add("Transformer", "skel_"+p.fn, lt, c.skel(p.rel, p.fn), p.rel+":"+p.fn, "control skeleton")
 	}
+	c.add("Transformer", "skel_generic_TransformDocument", lt, c.skel("pkg/versions/1_0/doctransformer/doctransformer/transformer.go", "TransformDocument"),
+		"pkg/versions/1_0/doctransformer/doctransformer/transformer.go:TransformDocument", "control skeleton")
+	c.add("Transformer", "lit_tags_ResolutionResult", lt, c.structTags("pkg/document/resolution.go", "ResolutionResult"), "pkg/document/resolution.go:ResolutionResult", "json tags")
 	for _, p := range []pf{{methodGo, "ParseDID"}, {methodGo, "parseInitialState"}, {dochGo, "ResolveDocument"}, {dochGo, "getNamespace"},
 		{dochGo, "resolveRequestWithInitialState"}, {dochGo, "getSuffix"}, {dochGo, "ProcessOperation"}, {dochGo, "getCreateResponse"},
 		{dochGo, "createProtocolClient"}, {docutilGo, "GetTransformationInfoForUnpublished"}, {docutilGo, "GetCreateResult"}, {v1clientGo, "Create"},
